@@ -92,8 +92,11 @@ func viaName(v Via) string {
 }
 
 func addrName(a Addr) string {
-	if a == ByKey {
+	switch a {
+	case ByKey:
 		return "key"
+	case ByLongKey:
+		return "longkey"
 	}
 	return "name"
 }
@@ -196,7 +199,7 @@ func slashHistories(run *evid.Run, cfg Cfg, kind string) {
 					i, j := r.Intn(n), r.Intn(n)
 					if i != j {
 						cs[j].Key, cs[j].Name = cs[i].Key, cs[i].Name
-						cs[j].Addr = 1 - cs[i].Addr
+						cs[j].Addr = Addr((int(cs[i].Addr) + 1 + r.Intn(2)) % 3)
 					}
 				} else {
 					// Otherwise distinct keys so that the batch is processed.
@@ -290,7 +293,7 @@ func genAtt(r *rand.Rand, env *Env, roots [][]byte, doms [][]byte, ki int) *AttC
 	if r.Intn(3) > 0 && src > tgt {
 		src, tgt = tgt, src
 	}
-	return &AttCase{Key: env.Keys[ki], Name: env.Names[ki], Addr: Addr(r.Intn(2)),
+	return &AttCase{Key: env.Keys[ki], Name: env.Names[ki], Addr: RandAddr(r),
 		Data: &rules.SignBeaconAttestationData{
 			Domain: doms[r.Intn(len(doms))], Slot: tgt * 32, CommitteeIndex: uint64(r.Intn(2)),
 			BeaconBlockRoot: roots[r.Intn(len(roots))],
@@ -305,7 +308,7 @@ func genProp(r *rand.Rand, env *Env, roots [][]byte, doms [][]byte) *PropCase {
 	if w := env.wm; w != nil && w[ki].HasProp && r.Intn(100) < 60 {
 		slot = near(r, w[ki].MaxSlot, -2, 3)
 	}
-	return &PropCase{Key: env.Keys[ki], Name: env.Names[ki], Addr: Addr(r.Intn(2)),
+	return &PropCase{Key: env.Keys[ki], Name: env.Names[ki], Addr: RandAddr(r),
 		Data: &rules.SignBeaconProposalData{Domain: doms[r.Intn(len(doms))], Slot: slot, ProposerIndex: uint64(r.Intn(2)),
 			ParentRoot: Root32(3), StateRoot: Root32(4), BodyRoot: roots[r.Intn(len(roots))]}}
 }
